@@ -30,6 +30,8 @@ def run(tier):
     work = vlib.mktmp("c11w-")
     fixed = os.path.join(work, "fixed.txt")
     rp = repo_patterns()
+    # pinned witnesses of defects the thorough tier found first (strconv-quoted)
+    rp += ['"(?:i?|:)(?:i?|:)*"', '"(?:a*)(?:a*)*b"', '"(?:|a)(?:|a)*"', '"x(?:a?b?)(?:a?b?)*y"', '"(?:ab)(?:ab)*"']
     open(fixed, "w").write("\n".join(rp) + "\n")
     per = 1300 if tier == "quick" else 16000
     maxlen, extra = (3, 30) if tier == "quick" else (4, 50)
